@@ -31,13 +31,21 @@ IsInfix(o)   == o.form = "infix"
 Matches(e, t) == CASE t = "prefix" -> e.form \in {"prefix", "lfence"}
                    [] t = "postfix" -> e.form \in {"postfix", "rfence"}
                    [] OTHER -> e.form = "infix"
+(* Identity of a dictionary entry, as is_nary's ptr_eq sees it.  The first entry of a symbol lives in the phf map and is its own
+   object.  The later entries are promoted constants ('next: &Some(OperatorInfo{..})'): the compiler merges constants with equal
+   contents, so the second entries of '_' and '____' (INFIX 900, next None) are ONE object - two such operators are "the same
+   n-ary operator" for shift_stack.  (Observed: a _ x ____ y stays one flat row.) *)
+FormCode(f) == CASE f = "prefix" -> 1 [] f = "infix" -> 2 [] f = "postfix" -> 3 [] f = "lfence" -> 4 [] OTHER -> 5
+EntryCode(e) == FormCode(e.form) + 10 * e.prio
+EntryId(tk, i) == IF i = 1 THEN <<tk.s, 1>>
+                  ELSE <<DefaultS, 10 + EntryCode(tk.chain[i]) + (IF i < Len(tk.chain) THEN 100000 * EntryCode(tk.chain[i + 1]) ELSE 0)>>
 (* find_operator + find_operator_info + op_not_in_operator_dictionary (no form attribute) *)
 FindInfo(tok, t) ==
   LET ch == tok.chain
       hits == {i \in 1..Len(ch) : Matches(ch[i], t)}
       i == IF hits = {} THEN 1 ELSE CHOOSE j \in hits : \A k \in hits : j <= k
   IN IF ch = <<>> THEN Op(<<DefaultS, IF t = "prefix" THEN 1 ELSE IF t = "postfix" THEN 3 ELSE 2>>, t, 260)         \* every unlisted operator shares the three default entries
-     ELSE Op(<<tok.s, i>>, ch[i].form, ch[i].prio)
+     ELSE Op(EntryId(tok, i), ch[i].form, ch[i].prio)
 PlusMinus(o) == o.id \in {<<PlusS, 1>>, <<MinusS, 1>>}       \* ptr_eq(PLUS) / ptr_eq(MINUS): the infix entries
 IsTimes(o)   == o.id \in {<<ItS, 1>>, <<TimesS, 1>>}
 Nary(cur, prev) == cur.id = prev.id \/ (PlusMinus(cur) /\ PlusMinus(prev)) \/ (IsTimes(cur) /\ IsTimes(prev))
@@ -100,7 +108,7 @@ OpAt(toks, i, st) ==
 (* closing fence or an infix operator depending on the stack and on what   *)
 (* follows.  OperatorVersions: the LAST entry of the chain for each role.  *)
 (***************************************************************************)
-EntryOp(tk, i) == Op(<<tk.s, i>>, tk.chain[i].form, tk.chain[i].prio)
+EntryOp(tk, i) == Op(EntryId(tk, i), tk.chain[i].form, tk.chain[i].prio)
 LastOf(tk, S) == IF S = {} THEN NoOp ELSE EntryOp(tk, CHOOSE i \in S : \A j \in S : j <= i)
 VPrefix(tk)  == LastOf(tk, {i \in 1..Len(tk.chain) : tk.chain[i].form \in {"prefix", "lfence"}})
 VInfix(tk)   == LastOf(tk, {i \in 1..Len(tk.chain) : tk.chain[i].form = "infix"})
